@@ -11,6 +11,7 @@ with `Mila.Spec.Overlay` and the `Spec.Loc` table.
 import Driver.Common
 import MilaModel.Model.LayeredFs
 import MilaModel.Spec.OverlayFs
+import MilaModel.Spec.LzStream
 
 namespace Driver.Fs
 open Mila Mila.LayeredFs
@@ -254,6 +255,22 @@ def sameWalks (a b : List Spec.Overlay.Walk) : Bool :=
 def isErr (o : List String) : Bool := o.head? == some "err"
 def isOk (o : List String) : Bool := o.head? == some "ok"
 
+/-- Independent judgement of a stored file on a compressed path: the specification's own LZ parser
+(`Spec.Lz.parse`, not mila's decompressor) accepts it as a well-formed stream of the game's format
+with valid tokens whose expansion has the announced length; the result is that expansion. -/
+def specDecode (g : Spec.Loc.Game) (s : Bytes) : Option Bytes :=
+  let is13 := match (Spec.Overlay.config g).lz with | .lz13 => true | .lz10 => false
+  let body : Option Bytes :=
+    if is13 then (match s with | 0x13 :: _ :: _ :: _ :: r => some r | _ => none) else some s
+  body.bind (fun b =>
+    match Spec.Lz.parse b with
+    | .ok (ext, n, toks) =>
+      if ext == is13 && Spec.Lz.validB ext toks then
+        let out := Spec.Lz.expandFrom (Array.emptyWithCapacity n) toks
+        if out.size == n then some out.toList else none
+      else none
+    | .error _ => none)
+
 /-- Expected outcome of a byte-level read, from the walks: `some (ok bytes)`, `some (err class)`;
 `none` = cannot be judged (stored bytes outside the codec table). -/
 def expectedRead (st : CaseSt) (g : Spec.Loc.Game) (q : Spec.Overlay.Loc) (path : Bytes) : Option (Except String Bytes) :=
@@ -261,9 +278,14 @@ def expectedRead (st : CaseSt) (g : Spec.Loc.Game) (q : Spec.Overlay.Loc) (path 
   | none => some (.error "NotFound")
   | some s =>
     if Spec.Overlay.hasCompressedSuffix g path then
-      match st.table.find s with
-      | some r => (match r.dz with | some b => some (.ok b) | none => some (.error "Decoding"))
-      | none => none
+      -- a well-formed stream must read as its expansion (judged by the specification's parser);
+      -- for anything else the table of mila's decompressor says whether reading fails
+      match specDecode g s with
+      | some b => some (.ok b)
+      | none =>
+        match st.table.find s with
+        | some r => (match r.dz with | some b => some (.ok b) | none => some (.error "Decoding"))
+        | none => none
     else some (.ok s)
 
 def digIndex (g : Spec.Loc.Game) : String → Nat
@@ -292,7 +314,10 @@ def oracleWrite (st : CaseSt) (g : Spec.Loc.Game) (lang : Spec.Loc.Language) (im
         match top'.at q.comps with
         | some (.file s) =>
           let storedOk :=
-            if z then (match st.table.find s with | some r => r.dz == some b | none => false) else s == b
+            if z then
+              specDecode g s == some b &&
+              (match st.table.find s with | some r => r.dz == some b | none => false)
+            else s == b
           if !storedOk then
             ((if z then "FAIL stored file is not a valid compressed stream of the payload" else "FAIL stored bytes differ from the payload"), st.written)
           else if !Spec.Overlay.writtenTop top top' q s then ("FAIL write_frame: top layer changed beyond the file and its parent directories", st.written)
